@@ -179,8 +179,13 @@ MatchCall(a) ==
                  IF mt = Whole(0) THEN
                      LET p == FirstEqual(col, key) IN IF p = 0 THEN Err("#N/A") ELSE Whole(p)
                  ELSE IF mt = Whole(1) THEN
-                     IF ~((\A i \in 1..Len(col) : Rank(col[i]) = Rank(key)) /\ Ascending(col)) THEN Open
-                     ELSE LET p == LastNotAbove(col, key) IN IF p = 0 THEN Err("#N/A") ELSE Whole(p)
+                     \* ascending in the order of all values (numbers before texts before logical values).  The position is
+                     \* determined when it holds a value of the key's own type; where it would fall on a value of another
+                     \* type (MATCH("a", {1;5;"b"}): 2 by the order of values, #N/A for Excel, which skips other types) it is open
+                     IF ~Ascending(col) THEN Open
+                     ELSE LET p == LastNotAbove(col, key) IN
+                          IF p = 0 THEN Err("#N/A")
+                          ELSE IF Rank(col[p]) = Rank(key) THEN Whole(p) ELSE Open
                  ELSE Open
 
 VlookupCall(a) ==
